@@ -397,6 +397,9 @@ func runCase(c *common.Ctx, e *common.Enum, f *family, en *entry) {
 			p.CPUms = float64(m.Microseconds()) / 1000
 		}
 		pts = append(pts, p)
+		if os.Getenv("C20_DEBUG") != "" {
+			fmt.Fprintf(os.Stderr, "%s n=%d bytes=%d res=%s lib=%d std=%d alloc=%d cpu=%v wall=%v\n", c.Key, n, len(sql), p.Result, p.Lib, p.Std, p.Alloc, p.cpu, p.wall)
+		}
 		if sig, where, msg := judge(en, pts, call); sig != "" {
 			r.Verdict, r.Where = "super-linear", where
 			c.Fail(sig, fmt.Sprintf("family %s, entry point %s: %s", f.name, en.name, msg))
